@@ -7,6 +7,7 @@ import sys
 
 ROOT = os.path.dirname(os.path.dirname(os.path.abspath(__file__)))
 sys.path.insert(0, ROOT)
+sys.path.insert(0, os.environ.get('VERIF_REPO', '/repo'))
 sys.dont_write_bytecode = True
 
 ALL = ['C%02d' % i for i in range(1, 21)]
@@ -18,7 +19,9 @@ checks, engines_e1, engines_e2, na = [], [], [], []
 for pid in ALL:
     try:
         mod = importlib.import_module('props.' + pid.lower())
-    except ModuleNotFoundError:
+    except ModuleNotFoundError as e:
+        if e.name != 'props.' + pid.lower():
+            raise
         na.append({'property_id': pid, 'reason': NA_REASONS.get(pid, 'check not built yet in this commit (work in progress; design in DESIGN.md section 3)')})
         continue
     m = mod.MANIFEST
